@@ -3,7 +3,8 @@
    Model: Model/Visitor.v (pydoctor/visitor.py), Model/BuilderStack.v (astbuilder push/pop).
    Contract: Spec/Walk.v. *)
 From Coq Require Import ZArith NArith List Bool.
-From PydoctorVerif Require Import Base.Sexp Model.Visitor Model.BuilderStack Spec.Walk Proofs.VisitorProofs Gen.SkipSites.
+From PydoctorVerif Require Import Base.Sexp Model.Visitor Model.BuilderStack Spec.Walk Proofs.VisitorProofs Gen.SkipSites
+  Model.VisitorIR Gen.VisitorCode Proofs.VisitorIRProofs.
 Import ListNotations.
 
 (* What each participant (main visitor = 0, or any extension) sees of walkabout() is exactly a
@@ -61,6 +62,41 @@ Proof. exact builder_stack_restored. Qed.
    push breaks this obligation. *)
 Lemma C19_skip_sites_checked : forallb site_ok skip_sites = true.
 Proof. vm_compute. reflexivity. Qed.
+
+(* ---- the tie to the source, as theorems ---------------------------------------------------------------------
+   Gen/VisitorCode.v holds the bodies of Visitor.visit / depart / walk / walkabout translated statement by statement
+   from /repo's CURRENT pydoctor/visitor.py (harness/gen/gen_c19_code.py, fail-closed, rerun on every check) into the
+   statement language of Model/VisitorIR.v.  Interpreting THAT code gives, for every tree, extension list and pruning
+   function, the events and the escaping exception of the hand-written model the theorems above are about. *)
+Theorem C19_code_walkabout_is_model :
+  forall exts prune t,
+    walkabout_ir visitor_code exts prune t
+    = (fst (walkabout exts prune t), if snd (walkabout exts prune t) then Some XSkipSiblings else None).
+Proof. exact walkabout_ir_eq. Qed.
+
+Theorem C19_code_walk_is_model :
+  forall exts prune t,
+    walk_ir visitor_code exts prune t
+    = (fst (walk exts prune t), if snd (walk exts prune t) then Some XSkipSiblings else None).
+Proof. exact walk_ir_eq. Qed.
+
+Theorem C19_code_visit_is_model :
+  forall exts prune n,
+    visit_ir visitor_code exts prune n = (visit_ev exts n, option_map exc_of_action (prune n)).
+Proof. exact visit_ir_eq. Qed.
+
+Theorem C19_code_depart_is_model :
+  forall exts prune n extensions_only,
+    depart_ir visitor_code exts prune n extensions_only = (depart_ev exts n extensions_only, None).
+Proof. exact depart_ir_eq. Qed.
+
+(* hence the property itself, stated on the translated code *)
+Theorem C19_code_walkabout_projection :
+  forall (exts : list ext) (prune : N -> option action) (t : tree) (p : N),
+    NoDup (main_id :: map ext_id exts) -> In p (main_id :: map ext_id exts) ->
+    filter (who_is p) (fst (walkabout_ir visitor_code exts prune t)) = dfs p (leaves_of prune p) (traversed prune t)
+    /\ (snd (walkabout_ir visitor_code exts prune t) <> None <-> skips_siblings prune (root t) = true).
+Proof. exact code_walkabout_projection. Qed.
 
 (* The walkabout() of the pinned commit (before the fix: commit) violated the projection property:
    a BEFORE extension enters node 2 and never leaves it when main raises SkipSiblings there. *)
